@@ -165,6 +165,15 @@ func (server *SugarDB) handleCommand(ctx context.Context, message []byte, conn *
 		}
 	}
 
+	// A command is atomic with respect to every other command: its handler and its record in the
+	// append-only log run under one lock (the store lock is held per keyspace call only, so two INCRs
+	// of one key could both read the old value). Pub/sub commands do not touch the keyspace and may
+	// wait for a subscriber to read; commands replicated through raft are ordered by the raft log.
+	if (!server.isInCluster() || !synchronize) && command.Module != constants.PubSubModule {
+		server.commandLock.Lock()
+		defer server.commandLock.Unlock()
+	}
+
 	// If the command is a write command, wait for state copy to finish, and for a rewrite of the
 	// append-only log to finish: a write between the state copy and the truncation of the log
 	// would be in neither the preamble nor the log.
